@@ -110,7 +110,11 @@ func pType(t *meta.Type) *PType {
 func (pj *projector) node(d meta.Definition, parent meta.Meta) PNode {
 	n := PNode{N: d.Ident(), Dflt: []string{}, Musts: []string{}, Keys: []string{}, Kids: []PNode{}}
 	if pj.seen[d] {
+		// a recursive definition (a grouping that uses itself) comes back as the same Go
+		// object: named, not expanded again
 		n.PtrDup = true
+		n.K = "again"
+		return n
 	}
 	pj.seen[d] = true
 	if p := d.Parent(); p != nil {
